@@ -312,7 +312,7 @@ def with_sanitizers(focus):
 
 # ---------------------------------------------------------------------- C02
 
-C02_FAMILIES = ["tails", "grid", "withlang", "tokens", "mutations", "bytes12", "chains", "pairs", "strings"]
+C02_FAMILIES = ["tails", "grid", "withlang", "tokens", "mutations", "bytes12", "chains", "pairs", "strings", "preambles"]
 C02_PHASES = ["parse", "display", "debug", "encode", "traverse", "clone-eq", "drop"]
 BOMB_FAMILIES = ["nest", "nest-noname", "nest-multi", "set-width", "coll-set", "attr-count", "group-count", "member-count",
                  "value-len", "name-len", "unterminated", "endcoll-flood", "member-flood", "addl-no-attr"]
